@@ -357,3 +357,29 @@ def block_refinements(draw):
                 continue
             out.extend(kids[:3] if i % 2 else kids[1:])
     return out
+
+
+@st.composite
+def spines(draw):
+    """Deepest cascades: a root (the world cell or any cell) refined along one path down to a bottom resolution
+    (often 29): at every level the siblings of the path cell are kept whole and the path cell is split further, so the
+    list tiles the root exactly and compaction has to merge once per level, bottom-up. Optionally one sibling is
+    dropped at one level (the cascade must then stop exactly there), or the root's own siblings are added."""
+    root = 0 if draw(st.integers(0, 2)) == 0 else draw(cell_ids(0, 20))
+    r0 = refids.res_of(root)
+    bottom = draw(st.sampled_from([29, 29, 28, min(29, r0 + 3), min(29, r0 + 12)]))
+    bottom = max(bottom, r0 + 1)
+    out = []
+    cur = root
+    drop_level = draw(st.sampled_from([None, None, draw(st.integers(r0 + 1, bottom))]))
+    for r in range(r0 + 1, bottom + 1):
+        kids = refids.children(cur, r)
+        k = draw(st.integers(0, len(kids) - 1))
+        for i, c in enumerate(kids):
+            if i == k and r < bottom:
+                continue
+            if drop_level == r and i == (k + 1) % len(kids):
+                continue
+            out.append(c)
+        cur = kids[k]
+    return out
